@@ -5,6 +5,8 @@ From XcpModel Require Import Base Backup Walker Meta Ops.
 From XcpProofs Require Import OpsProofs.
 From XcpModel Require Import Extracted.
 From XcpProofs Require Import ExtractedOk.
+From XcpProofs Require Import PinnedSource.
+From XcpPins Require Import Pin_operations_new Pin_common_is_same_file.
 
 (* every key a copy operation can change — in any prefix of its execution,
    i.e. wherever it is killed or fails — is its own target or that target's
@@ -46,8 +48,17 @@ Proof. vm_compute. split; reflexivity. Qed.
 Theorem C03_src_copy_new_order : x_copy_new_steps = [20; 21; 22; 23; 98; 24; 25; 1; 2; 3]%N.
 Proof. exact x_copy_new_steps_ok. Qed.
 
+(* ---- the glue functions this property's hand-written model mirrors are, token for token, the ones it was
+   validated against (an edit re-opens the obligation; harness/repin.py re-pins after re-validation) ---- *)
+Theorem C03_src_pin_operations_new : pin_unchanged name_operations_new.
+Proof. exact pin_operations_new. Qed.
+Theorem C03_src_pin_common_is_same_file : pin_unchanged name_common_is_same_file.
+Proof. exact pin_common_is_same_file. Qed.
+
 Print Assumptions C03_writes_only_mapped.
 Print Assumptions C03_source_only_read.
 Print Assumptions C03_link_special_only_mapped.
 Print Assumptions C03_no_self_overwrite.
 Print Assumptions C03_src_copy_new_order.
+Print Assumptions C03_src_pin_operations_new.
+Print Assumptions C03_src_pin_common_is_same_file.
